@@ -1,11 +1,93 @@
-From Coq Require Import List NArith Bool.
-From NV Require Import Gen.Fat.
+(* C11 -- Names round-trip exactly and are stored as standard VFAT entries. Statements only.
+   Unicode upper-casing is CPython s: it enters as the explicit argument [up] (see DESIGN.md). *)
+From Coq Require Import List NArith ZArith Bool.
+From NV Require Import Lib.Res Gen.Fat FatNames.Model FatNames.ProofsAlias FatNames.ProofsValid FatNames.ProofsLfn.
+From NV Require Fat.Spec.
+Import ListNotations.
 Open Scope N_scope.
+
+(* valid names = the VFAT rule (deny-list regenerated from fat.py) *)
+Theorem C11_lfn_valid_spec :
+  forall s : list N, lfn_valid s = vfat_valid s.
+Proof. exact FatNames.ProofsValid.lfn_valid_spec. Qed.
+Print Assumptions C11_lfn_valid_spec.
+
+(* invalid names are rejected with ValueError and nothing is produced *)
+Theorem C11_invalid_rejected :
+  forall (name up : list N) (existing : list (list N * list N)) (entry : list N), is_dot_name name = false -> vfat_valid name = false -> create_records name up existing entry = Err ValueError.
+Proof. exact FatNames.ProofsValid.invalid_rejected. Qed.
+Print Assumptions C11_invalid_rejected.
+
+Theorem C11_too_long_rejected :
+  forall (name up : list N) (existing : list (list N * list N)), existsb is_surrogate name = false -> (255 < length (utf16 name))%nat -> get_names name up existing = Err ValueError.
+Proof. exact FatNames.ProofsValid.too_long_rejected. Qed.
+Print Assumptions C11_too_long_rejected.
+
+(* the independent specification reader (Fat.Spec.decode_dir) recovers exactly the name from the records written *)
+Theorem C11_name_roundtrip :
+  forall (name up : list N) (existing : list (list N * list N)) (entry : list N) (recs : list (list N)) (term : list N), let sp := short_parts name up in let k := N.of_nat (lfn_count (length (utf16 name))) in case_attr name (fst sp) (snd sp) = None -> name <> [] -> name_ok name = true -> (length (utf16 name) <= 255)%nat -> ~ In 229 up -> length entry = 32%nat -> Spec.rfield de_attr entry <> 15 -> N.land (Spec.rfield de_attr entry) 8 = 0 -> nth 0 term 0 = 0 -> prefix_entries name up existing entry = Ok recs -> exists short : list N, Spec.decode_dir (recs ++ [term]) 0 None 0 = ([{| Spec.d_name := name; Spec.d_sfn := snd (Spec.short_name short); Spec.d_raw := short; Spec.d_nlfn := k; Spec.d_off := k |}], 0) /\ last recs [] = short.
+Proof. exact FatNames.ProofsLfn.name_roundtrip. Qed.
+Print Assumptions C11_name_roundtrip.
+
+(* order, terminator, padding, checksum, at most 20 records *)
+Theorem C11_lfn_entries_standard :
+  forall (name up : list N) (existing : list (list N * list N)) (entry : list N) (recs : list (list N)), let sp := short_parts name up in let u := utf16 name in let n := length u in let k := lfn_count n in case_attr name (fst sp) (snd sp) = None -> name <> [] -> existsb is_surrogate name = false -> code_points name = true -> (n <= 255)%nat -> prefix_entries name up existing entry = Ok recs -> exists (lrecs : list (list N)) (sfn8 ext3 : list N), recs = lrecs ++ [short_record entry sfn8 ext3 0] /\ length lrecs = k /\ (1 <= k <= 20)%nat /\ map (fun r : list N => nth 0 r 0) lrecs = ordinals k /\ Forall (std_lfn (Spec.checksum (sfn8 ++ ext3))) lrecs /\ concat (map Spec.lfn_units (rev lrecs)) = u ++ term_of n ++ repeat 65535 (13 * k - n - length (term_of n)).
+Proof. exact FatNames.ProofsLfn.lfn_entries_standard. Qed.
+Print Assumptions C11_lfn_entries_standard.
+
+(* pure 8.3 names (optionally all-lower base / extension) need no long-name records *)
+Theorem C11_pure_83_no_lfn :
+  forall (base ext up : list N) (existing : list (list N * list N)) (entry : list N), pure83 base ext = true -> let name := make_sfn base ext in up = map upper_b name -> length entry = 32%nat -> exists attr : N, let r := short_record entry (ljust 8 32 (map upper_b base)) (ljust 3 32 (map upper_b ext)) attr in prefix_entries name up existing entry = Ok [r] /\ In attr [0; 8; 16; 24] /\ Spec.short_name r = (name, make_sfn (map upper_b base) (map upper_b ext)).
+Proof. exact FatNames.ProofsValid.pure_83_no_lfn. Qed.
+Print Assumptions C11_pure_83_no_lfn.
+
+Theorem C11_short_only_shows_name :
+  forall (name up : list N) (existing : list (list N * list N)) (entry : list N) (attr : N), let sp := short_parts name up in case_attr name (fst sp) (snd sp) = Some attr -> length entry = 32%nat -> let r := short_record entry (ljust 8 32 (fst sp)) (ljust 3 32 (snd sp)) attr in prefix_entries name up existing entry = Ok [r] /\ In attr [0; 8; 16; 24] /\ Spec.short_name r = (latin1_replace name, make_sfn (fst sp) (snd sp)).
+Proof. exact FatNames.ProofsValid.short_only_shows_name. Qed.
+Print Assumptions C11_short_only_shows_name.
+
+(* the alias uses only legal 8.3 bytes, 8+3 long *)
+Theorem C11_alias_standard :
+  forall (name up : list N) (existing : list (list N * list N)) (lfn sfn8 ext3 : list N) (attr : N), is_dot_name name = false -> get_names name up existing = Ok (lfn, sfn8, ext3, attr) -> length sfn8 = 8%nat /\ length ext3 = 3%nat /\ forallb sfn_valid_char sfn8 = true /\ forallb sfn_valid_char ext3 = true /\ (~ In 229 up -> ~ In 229 sfn8).
+Proof. exact FatNames.ProofsValid.alias_standard. Qed.
+Print Assumptions C11_alias_standard.
+
+Theorem C11_checksum_standard :
+  forall sfn ext : list N, sfn_checksum sfn ext = Spec.checksum (sfn ++ ext).
+Proof. exact FatNames.ProofsValid.checksum_standard. Qed.
+Print Assumptions C11_checksum_standard.
+
+(* the alias differs from every existing alias and long name of the directory *)
+Theorem C11_alias_unique :
+  forall (prefix ext : list N) (existing : list (list N * list N)) (a : list N), unique_sfn prefix ext existing = Ok a -> forall l s : list N, In (l, s) existing -> fs l <> fs (a ++ extpart ext) /\ fs s <> fs (a ++ extpart ext).
+Proof. exact FatNames.ProofsAlias.alias_unique. Qed.
+Print Assumptions C11_alias_unique.
+
+(* the numeric tail is the least one not in use *)
+Theorem C11_unique_sfn_least :
+  forall (prefix ext : list N) (existing : list (list N * list N)) (a : list N), unique_sfn prefix ext existing = Ok a -> exists n : N, a = alias_of prefix n /\ 1 <= n /\ n < max_sfn_suffix /\ taken prefix ext existing n = false /\ (forall m : N, 1 <= m -> m < n -> taken prefix ext existing m = true).
+Proof. exact FatNames.ProofsAlias.unique_sfn_least. Qed.
+Print Assumptions C11_unique_sfn_least.
+
+Theorem C11_unique_sfn_enospc :
+  forall (prefix ext : list N) (existing : list (list N * list N)), (exists e : exn, unique_sfn prefix ext existing = Err e) <-> (forall m : N, 1 <= m -> m < max_sfn_suffix -> taken prefix ext existing m = true).
+Proof. exact FatNames.ProofsAlias.unique_sfn_enospc. Qed.
+Print Assumptions C11_unique_sfn_enospc.
+
+(* adding an entry never changes what an existing name resolves to (no shadowing) *)
+Theorem C11_lookup_stable :
+  forall (uname : list N) (ex : list (list N * list N)) (new : list N * list N) (i j : N), lookup_from i uname ex = Some j -> lookup_from i uname (ex ++ [new]) = Some j.
+Proof. exact FatNames.ProofsValid.lookup_stable. Qed.
+Print Assumptions C11_lookup_stable.
+
+Theorem C11_lookup_found :
+  forall (uname : list N) (ex0 : list (list N * list N)) (i : N) (lu s : list N), In (lu, s) ex0 -> lu = uname \/ s = uname -> exists j : N, lookup_from i uname ex0 = Some j.
+Proof. exact FatNames.ProofsValid.lookup_found. Qed.
+Print Assumptions C11_lookup_found.
+
+
 Theorem C11_source_facts :
-  (fat12_min_valid, fat12_max_valid, fat12_end_mark) = (2, 4079, 4095) /\
-  (fat16_min_valid, fat16_max_valid, fat16_end_mark) = (2, 65519, 65535) /\
-  (fat32_min_valid, fat32_max_valid, fat32_end_mark) = (2, 268435439, 268435455) /\
-  (fat12_threshold, fat16_threshold) = (4085, 65525) /\ fs_default_atime = false /\
-  de_sizeof = 32 /\ lfn_sizeof = 32 /\ bpb_sizeof = 36 /\ lfn_checksum_standard = true.
+  lfn_valid_guards_standard = true /\ lfn_valid_anchored_end = true /\ max_sfn_suffix = 65535 /\
+  lfn_checksum_standard = true /\ lfn_sizeof = 32 /\ de_sizeof = 32.
 Proof. repeat split; reflexivity. Qed.
 Print Assumptions C11_source_facts.
